@@ -189,6 +189,13 @@ theorem weight_split (t : Tx) : txWeight t = 4 * t.baseSize + (t.totalSize - t.b
   have := Lemmas.baseSize_le_totalSize t
   unfold txWeight WITNESS_SCALE_FACTOR; omega
 
+/-- block weight = 3·|stripped block serialization| + |full block serialization| (80-byte header,
+    transaction count, transactions) -/
+theorem blockWeight_eq_serialized (hdr : Bytes) (txs : List Tx) (hh : hdr.length = 80)
+    (hw : ∀ t ∈ txs, TxWf t) :
+    blockWeight txs = 3 * (Lemmas.serializeBlock hdr txs false).length + (Lemmas.serializeBlock hdr txs true).length :=
+  Lemmas.blockWeight_eq_serialized hdr txs hh hw
+
 /-- without witness data the weight is exactly 4 × the serialized size -/
 theorem weight_no_witness (t : Tx) (h : TxWf t) (hw : t.hasWitness = false) :
     txWeight t = 4 * (t.serialize true).length := by
@@ -287,6 +294,19 @@ theorem txSigOpCost_perm (i1 i2 : List (Bytes × List Bytes × Bytes)) (o1 o2 : 
     (pi : i1.Perm i2) (po : o1.Perm o2) : txSigOpCost i1 o1 = txSigOpCost i2 o2 :=
   Lemmas.txSigOpCost_perm i1 i2 o1 o2 pi po
 
+/-- the code's behaviour on unavailable outputs, stated as it is: with BIP16 on, an output that is
+    missing while the P2SH sigops are counted yields cost 0 WITHOUT an error (`return 0, nil`); the
+    callers reject such a transaction through CheckTransactionInputs. Without BIP16 the segwit pass
+    reports the error. -/
+theorem sigOpCost_missing_quirk (t : Tx) (utxos : List Utxo) (sw : Bool)
+    (h : countP2SHSigOps t false utxos = none) : getSigOpCost t false utxos true sw = some 0 :=
+  Lemmas.sigOpCost_missing_quirk t utxos sw h
+
+theorem sigOpCost_missing_segwit (t : Tx) (utxos : List Utxo)
+    (h : witnessLoop (t.ins.zip utxos) (countSigOps t * WITNESS_SCALE_FACTOR) = none) :
+    getSigOpCost t false utxos false true = none :=
+  Lemmas.sigOpCost_missing_segwit t utxos _ h rfl
+
 /-- a coinbase pays only for its legacy sigops: 4 · legacy -/
 theorem sigOpCost_coinbase (t : Tx) (utxos : List Utxo) (b16 sw : Bool) :
     getSigOpCost t true utxos b16 sw = some (4 * countSigOps t) := by
@@ -362,6 +382,14 @@ theorem coinbaseHeight_minimal (s : Bytes) (h : Int) (hx : extractCoinbaseHeight
         · split at hx
           · next hp => injection hx with hx; subst hx; exact hp
           · cases hx
+
+/-- `ExtractCoinbaseHeight` reports ErrMissingCoinbaseHeight exactly for an empty script or a
+    first-byte push length that exceeds what follows -/
+theorem coinbaseHeight_missing_iff (op : UInt8) (rest : Bytes) :
+    extractCoinbaseHeight [] = .missing ∧
+    (extractCoinbaseHeight (op :: rest) = .missing ↔
+      op.toNat ≠ 0 ∧ ¬ (op.toNat ≥ 0x51 ∧ op.toNat ≤ 0x60) ∧ rest.length < op.toNat) :=
+  Lemmas.coinbaseHeight_missing_iff op rest
 
 /-- BIP34 as Core states it: `CheckSerializedHeight(want)` passes (extraction succeeds with exactly
     `want`) iff the signature script starts with `CScript() << want`, for every height 0..2^31−1. -/
